@@ -239,6 +239,8 @@ def run(ctx):
         (name, src, out, w), v = res[len(res) // 2]
         ctx.sample({'src': src.decode('latin1'), 'out': out.decode('latin1'), 'width': w, 'verdict': v[0]})
     cli_path(ctx)
+    from .. import system
+    system.run(ctx, 'C09', nseq=(40 if ctx.quick else 300))
 
 
 def cli_path(ctx):
